@@ -477,7 +477,69 @@ func genC01HistorySearch(g *Gen) *wire.Scenario {
 	return sc
 }
 
+// genC01Macros: keyboard macros whose recording contains keys that run macros (the one being recorded, the last
+// one, another register), nested recordings, and replays with a count: a replay has to end.
+func genC01Macros(g *Gen) *wire.Scenario {
+	mode := Pick(g, []string{"emacs", "vi"})
+	sc := &wire.Scenario{Prop: "C01", Family: "edit-macros", Env: g.swarmEnv(mode)}
+	typ := func(n int) {
+		for i := 0; i < n; i++ {
+			sc.Script = append(sc.Script, tok(string(Pick(g, []rune("ab c"))), "self-insert"))
+		}
+	}
+	if mode == "emacs" {
+		for round := 0; round < g.Range(1, 3); round++ {
+			sc.Script = append(sc.Script, tok("\x18(", "start-kbd-macro"))
+			typ(g.Range(0, 2))
+			for i := 0; i < g.Range(0, 2); i++ {
+				sc.Script = append(sc.Script, Pick(g, []wire.Token{tok("\x18e", "call-last-kbd-macro"), tok("\x18(", "start-kbd-macro"), tok("\x1b2", "digit-argument"), tok("\x18e", "call-last-kbd-macro")}))
+				typ(g.N(2))
+			}
+			sc.Script = append(sc.Script, tok("\x18)", "end-kbd-macro"))
+			for i := 0; i < g.Range(1, 2); i++ {
+				if g.P(30) {
+					sc.Script = append(sc.Script, tok("\x1b3", "digit-argument"))
+				}
+				sc.Script = append(sc.Script, tok("\x18e", "call-last-kbd-macro"))
+			}
+		}
+	} else {
+		typ(g.Range(0, 2))
+		sc.Script = append(sc.Script, tok("\x1b", "vi-movement-mode"))
+		for round := 0; round < g.Range(1, 3); round++ {
+			reg := Pick(g, []string{"a", "a", "b"})
+			sc.Script = append(sc.Script, tok("q", "macro-toggle-record"), tok(reg, "arg-key"))
+			for i := 0; i < g.Range(0, 3); i++ {
+				switch g.N(4) {
+				case 0:
+					sc.Script = append(sc.Script, tok("@", "macro-run"), tok(Pick(g, []string{reg, "a", "b", "@"}), "arg-key"))
+				case 1:
+					sc.Script = append(sc.Script, tok("i", "vi-insertion-mode"))
+					typ(1)
+					sc.Script = append(sc.Script, tok("\x1b", "vi-movement-mode"))
+				default:
+					sc.Script = append(sc.Script, tok(Pick(g, []string{"x", "h", "l", "p", "0"}), "vi-key"))
+				}
+			}
+			sc.Script = append(sc.Script, tok("q", "macro-toggle-record"))
+			for i := 0; i < g.Range(1, 2); i++ {
+				if g.P(30) {
+					sc.Script = append(sc.Script, tok("3", "vi-arg-digit"))
+				}
+				sc.Script = append(sc.Script, tok("@", "macro-run"), tok(Pick(g, []string{reg, "a", "b", "@"}), "arg-key"))
+			}
+		}
+	}
+	typ(1)
+	sc.Script = append(sc.Script, tok("\r", "accept-line"))
+	sc.Plan = wire.Plan{Policy: "seeded", Class: "S1", Seed: g.Seed()}
+	return sc
+}
+
 func genC01(g *Gen, tier string, idx int) *wire.Scenario {
+	if idx%16 == 1 {
+		return genC01Macros(g)
+	}
 	if idx%16 == 9 {
 		return genC01HistorySearch(g)
 	}
@@ -543,8 +605,48 @@ func execC01(x *Ctx, sc *wire.Scenario) *wire.Result {
 	out := runSession(x, sc, sc.Plan, hooks, false)
 	absorb(res, out)
 	res.Nontrivial = out.Steps > 6
+	if out.End == "LIVELOCK" && macrosRunEachOther(sc.Script) {
+		// a listed finding with a name of its own (the general livelock names must stay free for anything else)
+		return violation(res, "LIVELOCK", "C01.no-livelock", "livelock:keyboard-macros-that-run-each-other",
+			"no input progress for more than 1500 scheduler steps while replaying vi keyboard macros whose recordings run one another: "+out.EndDetail)
+	}
 	if crashOracle(res, out, "C01") {
 		return res
 	}
 	return res
+}
+
+// macrosRunEachOther: the script records vi keyboard macros into two registers or more, and the recordings
+// contain keys that run the other's register (directly, or the last one with @@): replaying one runs the
+// other, which runs the first again.
+func macrosRunEachOther(script []wire.Token) bool {
+	edges := map[string]map[string]bool{}
+	rec := ""
+	for i := 0; i+1 < len(script); i++ {
+		t, arg := script[i], string(script[i+1].B)
+		switch {
+		case t.Cmd == "macro-toggle-record" && rec == "":
+			rec = arg
+			i++
+		case t.Cmd == "macro-toggle-record":
+			rec = ""
+		case t.Cmd == "macro-run" && rec != "":
+			if edges[rec] == nil {
+				edges[rec] = map[string]bool{}
+			}
+			edges[rec][arg] = true
+			i++
+		}
+	}
+	for a, to := range edges {
+		for b := range to {
+			if b == "@" && len(edges) > 1 {
+				return true
+			}
+			if b != a && (edges[b][a] || edges[b]["@"]) {
+				return true
+			}
+		}
+	}
+	return false
 }
